@@ -65,7 +65,7 @@ def make_tables(rng, numeric=False, plain=False):
 def pattern_for(rng, names, cov):
     """-> (pattern, regex_flag, class)"""
     n = rng.choice(names)
-    c = rng.choice(['lit', 'noregex', 'dotstar', 'alt', 'alt_raw', 'class', 'nomatch', 'prefix_opt'])
+    c = rng.choice(['lit', 'noregex', 'dotstar', 'alt', 'alt_raw', 'class', 'nomatch', 'prefix_opt', 'inline_flag'])
     cov['pattern/' + c] = cov.get('pattern/' + c, 0) + 1
     if c == 'lit':
         return lit(n), True, c
@@ -82,6 +82,9 @@ def pattern_for(rng, names, cov):
         return '[a-c]+', True, c
     if c == 'prefix_opt':
         return 'ab?c?', True, c
+    if c == 'inline_flag':
+        # a global inline flag has to stay at the very start of the compiled pattern
+        return '(?i)' + lit(n).upper(), True, c
     return 'zzz', True, c
 
 
